@@ -16,8 +16,10 @@ def _wait_gate(name, limit=30.0):
 
 
 def _touch(name):
-    with open(os.path.join(SCRATCH, name), "w") as f:
+    tmp = os.path.join(SCRATCH, ".tmp-%s-%d" % (name, os.getpid()))
+    with open(tmp, "w") as f:
         f.write(str(os.getpid()))
+    os.rename(tmp, os.path.join(SCRATCH, name))       # appears complete or not at all
 
 
 def _ids():
@@ -51,6 +53,16 @@ def app(environ, start_response):
             yield ("end " + info).encode()
         start_response("200 OK", [("Content-Type", "text/plain"), ("X-Pid", str(os.getpid()))])
         return gen()
+    elif kind == "file":
+        # /file/<offset>/<content-length or 'none'>: wsgi.file_wrapper over a real file positioned at <offset>
+        f = open(os.path.join(SCRATCH, "data.bin"), "rb")
+        f.seek(int(arg or "0"))
+        cl = parts[2] if len(parts) > 2 else "none"
+        hdrs = [("Content-Type", "application/octet-stream")]
+        if cl != "none":
+            hdrs.append(("Content-Length", cl))
+        start_response("200 OK", hdrs)
+        return environ["wsgi.file_wrapper"](f)
     elif kind == "hang":
         _touch("started-" + arg)
         while True:
